@@ -391,6 +391,8 @@ class WindowedOptimizer:
         progbar=False,
         **kwargs,
     ):
+        # the window cannot be longer than the path itself
+        window_size = min(window_size, len(self.nodes))
         wl = window_size // 2
         wr = window_size - wl
 
